@@ -11,8 +11,8 @@
 using nd::Rng;
 using namespace hs;
 
-static const char* kFam[] = {"cluster-groups", "dense-cluster", "forest", "corpus", "tactile"};
-enum { F_GROUPS, F_CLUSTER, F_FOREST, F_CORPUS, F_TACTILE };
+static const char* kFam[] = {"cluster-groups", "dense-cluster", "forest", "corpus", "tactile", "field"};
+enum { F_GROUPS, F_CLUSTER, F_FOREST, F_CORPUS, F_TACTILE, F_FIELD };
 
 // a pad with a tactile sensor of >= 1000 taxels (builtin plate mesh) touched by a few small bodies: the sensor stage
 // dispatches taxel batches to the pool (engine_sensor.c: tactileTask)
@@ -58,7 +58,7 @@ int main(int argc, char** argv) {
     Rng r(s);
     nd::g_seed = s; nd::g_blob.clear();
     // ---- model: families chosen so that the step has several constraint islands and/or >16 candidate pairs
-    int fam = r.below(100); fam = fam < 30 ? F_GROUPS : fam < 43 ? F_CLUSTER : fam < 75 ? F_FOREST : fam < 88 ? F_CORPUS : F_TACTILE;
+    int fam = r.below(100); fam = fam < 26 ? F_GROUPS : fam < 38 ? F_CLUSTER : fam < 66 ? F_FOREST : fam < 78 ? F_CORPUS : fam < 88 ? F_TACTILE : F_FIELD;
     if (sup.corpus.empty() && fam == F_CORPUS) fam = F_FOREST;
     mg::GenOpts go; go.memory = "32M"; go.allow_rk4 = true;
     std::string mdesc; mjModel* m = nullptr; std::string err;
@@ -78,6 +78,11 @@ int main(int argc, char** argv) {
     else {
       sup.corpus_share = 0.0;
       if (fam == F_GROUPS) { go.dense_cluster = true; go.cluster_n = r.range(8, 24); go.cluster_group = r.range(2, 6); go.sensors = false; go.cluster_convex = r.chance(0.6); }
+      else if (fam == F_FIELD) {
+        // a row of separate bodies that already touch the floor: one constraint island each, more islands than the mjNISLAND slots of
+        // the per-island solver statistics
+        go.dense_cluster = true; go.cluster_n = r.range(22, 33); go.cluster_group = 1; go.cluster_z = 0.04; go.sensors = false; go.cluster_convex = r.chance(0.3);
+      }
       else if (fam == F_CLUSTER) { go.dense_cluster = true; go.cluster_n = r.range(6, 16); go.sensors = false; go.cluster_convex = r.chance(0.6); }
       else { go.min_trees = 4; go.max_trees = 9; go.spread = r.chance(0.5) ? 0.25 : 0.5; }
       m = sup.get(r, go, &mdesc);
@@ -146,6 +151,7 @@ int main(int argc, char** argv) {
       ncompared++;
       if (P->nisland >= 2) sd::probe("compared_calls_with_2+_islands");
       if (P->nisland >= 4) sd::probe("compared_calls_with_4+_islands");
+      if (P->nisland > mjNISLAND) sd::probe("compared_calls_with_more_islands_than_mjNISLAND");
       if (P->ncon >= 17) sd::probe("compared_calls_with_17+_contacts");
       if (P->nefc) sd::probe("compared_calls_with_constraints");
       if (fam == F_TACTILE && m->nmesh && m->mesh_vertnum[0] >= 1000) {
